@@ -1,4 +1,5 @@
 import AndaVerif.Props.C08
+import AndaVerif.Model.Durability
 /-
 C08 → the models that ASSUME "every store mutation is atomic and durable" (C01 `Model/Durability`,
 C05, the flush models of C10–C12): the assumption as an interface, `StoreSpec`, and the proof that the
@@ -165,6 +166,37 @@ theorem wrapper_crash_is_prefix (fl : Wrapper) (es : List Event) (done : List (N
     bytesView (crashState (wrapperStore.run s done) now (mutCall m) n) = done.foldl f (bytesView s) ∨
     bytesView (crashState (wrapperStore.run s done) now (mutCall m) n) = (done ++ [(now, m)]).foldl f (bytesView s) :=
   (wrapperStore.crash_is_prefix _ (wrapperStore_reachable fl es) done now m n).2
+
+/-! ### in the vocabulary of C01's fault model
+
+`Model/Durability.lean` (C01) runs the collection over a backend whose mutation attempts have one of
+four outcomes (`Durability.Fault`): `ok` (lands, reported), `fail` (nothing lands), `unknown` (LANDS but
+the caller sees an error), `crash` (nothing lands, power off) — `World.attempt` applies the mutation
+`f` to the durable state iff the outcome is `ok` or `unknown`. That a wrapper call which is interrupted
+somewhere inside its several backend steps has exactly such an outcome is what C01 assumes. -/
+
+/-- does the mutation land under this outcome? (`World.attempt`: `D := f D` for `ok` and `unknown`) -/
+def landed : Durability.Fault → Bool
+  | .ok => true
+  | .unknown => true
+  | .fail => false
+  | .crash => false
+
+/-- **Every interrupted mutation of a `StoreSpec` is one of C01's two failure outcomes that matter
+after a restart**: the restart view is the view with the mutation applied (`unknown`: it landed, the
+caller never learnt it) or the untouched view (`crash` / `fail`). There is no third possibility, for
+any backend step at which the process dies. -/
+theorem StoreSpec.crash_is_fault (S : StoreSpec) (s : S.State) (hs : S.good s) (now : Nat) (m : Mut) (n : Nat) :
+    ∃ f : Durability.Fault, f ≠ .ok ∧
+      S.view (S.crash s now m n) = (if landed f then m.apply (S.view s) else S.view s) := by
+  rcases S.crash_atomic s now m n hs with h | h
+  · exact ⟨.crash, by decide, by simp [landed, h]⟩
+  · exact ⟨.unknown, by decide, by simp [landed, h, S.exec_view s now m hs]⟩
+
+/-- ... and a completed one is `ok`. -/
+theorem StoreSpec.exec_is_ok (S : StoreSpec) (s : S.State) (hs : S.good s) (now : Nat) (m : Mut) :
+    S.view (S.exec s now m) = (if landed .ok then m.apply (S.view s) else S.view s) := by
+  simp [landed, S.exec_view s now m hs]
 
 /-- non-vacuity: put, put, crash in the third put after its payload write: the first two are there -/
 example :
